@@ -15,7 +15,7 @@ def lib_name(i):
     return f"lib{i}"
 
 
-def write_module(root, k, edges, extra_methods=2):
+def write_module(root, k, edges, extra_methods=2, cross_params=False):
     """edges: dict (i, j) -> 'base' | 'typedef'.  Returns per-library info."""
     libs = []
     sysd = os.path.join(root, "sys")
@@ -42,12 +42,19 @@ def write_module(root, k, edges, extra_methods=2):
             hn = f"{n}_d{j}.h"
             g = f"{n.upper()}_D{j}_H"
             if kind == "base":
+                xp = [f"  int use_base(const R{j} &x, R{j} *p) const;", f"  enum E{i}_{j} {{ ea{i}_{j}, eb{i}_{j} = 5 }};",
+                      f"  int m{i}_{j};"] if cross_params else []
                 h = [f"#ifndef {g}", f"#define {g}", '#include "vfpub.h"', f'#include "lib{j}_root.h"',
                      f"class D{i}_{j} : public R{j} {{", "PUBLISHED:", f"  D{i}_{j}();", f"  int own_id() const;",
-                     f"  virtual int vid() const;", "};", "#endif"]
+                     f"  virtual int vid() const;"] + xp + ["};"] + \
+                    (["BEGIN_PUBLISH", f"int free{i}_{j}(const R{j} *x, D{i}_{j} &d);", "END_PUBLISH",
+                      f"#define MAC{i}_{j} {10 * i + j}"] if cross_params else []) + ["#endif"]
                 cx += [f'#include "{hn}"', f"D{i}_{j}::D{i}_{j}() {{}}",
                        f"int D{i}_{j}::own_id() const {{ return {1000 + 10 * i + j}; }}",
                        f"int D{i}_{j}::vid() const {{ return {1000 + 10 * i + j}; }}"]
+                if cross_params:
+                    cx += [f"int D{i}_{j}::use_base(const R{j} &x, R{j} *p) const {{ return x.vid() + (p ? 1 : 0); }}",
+                           f"int free{i}_{j}(const R{j} *x, D{i}_{j} &d) {{ return d.vid() + (x ? 1 : 0); }}"]
                 classes.append(f"D{i}_{j}")
                 derived.append((f"D{i}_{j}", f"R{j}", j))
             else:
